@@ -111,9 +111,8 @@ Section Node.
   (* ---------- Block::create ---------- *)
   (* [txs]: golden ticket first (if any) then the pooled transactions in the order the
      drain of the hash map produced; [has_gt]: the `golden_ticket` argument was Some *)
-  Definition produce (st : state) (ts : N) (has_gt : bool) (txs : list tx) (bf_calc : N)
+  Definition produce_m (md : amode) (st : state) (ts : N) (has_gt : bool) (txs : list tx) (bf_calc : N)
              (orc : oracle) : res (hdr * list tx) :=
-    let md := mode in
     let id := tip_id st + 1 in
     let prev := option_map b_hdr (parent_of st) in
     let pv (f : hdr -> N) := match prev with Some p => f p | None => 0 end in
@@ -136,6 +135,7 @@ Section Node.
                    (c_burnfee c) (c_difficulty c)
                    (existsb (fun t => t_ty t =? TGolden) all) in
     Ok (h, locate id 0 all).
+  Definition produce := produce_m mode.
 
   (* ---------- what is hashed: serialize_for_signature ---------- *)
   Definition sig_slip_eqb (a b : slip) : bool :=
@@ -152,10 +152,11 @@ Section Node.
 
   (* ---------- transactions of a block ---------- *)
   Definition utxo_checked (t : tx) : bool :=
-    negb ((t_ty t =? TFee) || (t_ty t =? TSPV) || (t_ty t =? TStake)).
+    negb ((t_ty t =? TFee) || (t_ty t =? TSPV)).
   Definition user_tx (t : tx) : bool :=
     utxo_checked t && negb (t_ty t =? TATR) && negb (t_ty t =? TIssuance).
   Definition tx_valid (u : list slip) (t : tx) : bool :=
+    (Nlen (t_from t) <=? 255) && (Nlen (t_to t) <=? 255) &&
     t_ok t &&
     (negb (user_tx t) || (total_out t <=? total_in t)) &&
     (negb (utxo_checked t) ||
@@ -178,8 +179,7 @@ Section Node.
     end.
 
   (* ---------- Block::validate (validate_against_utxo = true) ---------- *)
-  Definition validate (st : state) (b : block) : res bool :=
-    let md := mode in
+  Definition validate_m (md : amode) (st : state) (b : block) : res bool :=
     let h := b_hdr b in
     match b_txs b, negb (h_id h =? 1), st_chain st with
     | [], true, _ :: _ => Ok false
@@ -246,6 +246,7 @@ Section Node.
     if negb fee_ok then Ok false else
     Ok (vsweep (st_utxo st) [] (b_txs b))
     end.
+  Definition validate := validate_m mode.
 
   (* ---------- check_total_supply ---------- *)
   Definition in_window (tipid : N) (s : slip) : bool := (tipid - cf_gp cf) <=? s_bid s.
